@@ -460,7 +460,11 @@ class DataFrameModel(Generic[TDataFrame, TSchema], BaseModel):
         matched: Set[str] = set()
         for regex in regexps:
             pattern = re.compile(regex)
-            matched.update(filter(pattern.match, seq))
+            matched.update(
+                name
+                for name in seq
+                if isinstance(name, str) and pattern.match(name)
+            )
         return matched
 
     @classmethod
